@@ -103,7 +103,7 @@ int main(int argc, char **argv) {
     set<long>                S(world);
     multiset<long>           T(world);
     counting_set<long>       C(world);
-    map<long, long>          RM(world);
+    map<long, long>          RM(world, 1000);     // a non-zero default: a reduction into an absent key starts from the contribution, not from the default
     array<long>              RARR(world, 37, 0);
     bag<long>                B(world);
     array<long>              A(world, alen, 5);
@@ -241,6 +241,15 @@ int main(int argc, char **argv) {
         s = q + "M.all_gather :";
         for (auto &kv : gm) s += " " + std::to_string(kv.first) + "=" + std::to_string(kv.second);
         line(s);
+        {
+          // multimap: every rank (the owner of a key included) gets all the values of every key asked for
+          auto gx = X.all_gather(keys);
+          std::vector<std::pair<long, long>> v(gx.begin(), gx.end());
+          std::sort(v.begin(), v.end());
+          std::string sx = q + "X.all_gather :";
+          for (auto &kv : v) sx += " " + std::to_string(kv.first) + "=" + std::to_string(kv.second);
+          line(sx);
+        }
         auto gc = C.all_gather(keys);
         s = q + "C.all_gather :";
         for (auto &kv : gc) s += " " + std::to_string(kv.first) + "=" + std::to_string(kv.second);
@@ -350,7 +359,15 @@ int main(int argc, char **argv) {
       bag<std::pair<long, long>> PB(world);
       for (auto &kv : local) PB.async_insert(kv);
       auto r2 = reduce_by_key_map<long, long>(PB, plusl, world);
+      // an operator for which the map's default value (0) is not an identity on the contributed values (all positive): min
+      auto minl = [](const long &a, const long &b) { return a < b ? a : b; };
+      auto r3 = reduce_by_key_map<long, long>(local, minl, world);
       world.barrier();
+      {
+        std::string s3 = "Y " + std::to_string(me) + " RBK3 :";
+        for (auto &kv : r3.m_impl.m_local_map) s3 += " " + std::to_string(kv.first) + "=" + std::to_string(kv.second);
+        line(s3);
+      }
       std::string s = "Y " + std::to_string(me) + " RBK1 :";
       for (auto &kv : r1.m_impl.m_local_map) s += " " + std::to_string(kv.first) + "=" + std::to_string(kv.second);
       line(s);
